@@ -171,7 +171,8 @@ class CacheVariant(Variant):
             ok = d is not None and isinstance(d, tuple) and len(d) == 2
             goals.append(("definition-recorded", z3.BoolVal(bool(ok))))
             if ok:
-                goals.append(("definition-content", z3.And(d[1] == self.newbody, z3.BoolVal(len(d[0]) == 1), d[0][0] == self.newparams[0])))
+                okp = len(d[0]) == 1
+                goals.append(("definition-content", z3.And(d[1] == self.newbody, d[0][0] == self.newparams[0]) if okp else z3.BoolVal(False)))
         return goals
 
 
@@ -549,6 +550,12 @@ class HelperVariant(Variant):
         elif sh == "binary-real":
             ex.assume(z3.And(ta == S.RealT, tb == S.RealT))
             args = [self.a, self.b]
+        elif sh in ("ternary-int", "ternary-real"):
+            self.c = z3.Const("c", Node)
+            W.touch(ex, self.c)
+            T_ = S.IntT if sh == "ternary-int" else S.RealT
+            ex.assume(z3.And(ta == T_, tb == T_, S.type_of(self.c) == T_))
+            args = [self.a, self.b, self.c]
         elif sh == "bool":
             ex.assume(z3.And(ta == S.BoolT, tb == S.BoolT))
             args = [self.a, self.b]
@@ -564,6 +571,15 @@ class HelperVariant(Variant):
         kind, r = outcome
         sh, h = self.shape, self.helper
         va, vb = S.val(self.a), S.val(self.b)
+        if sh.startswith("ternary"):
+            # (- a b c) is left-associative in SMT-LIB; pySMT may refuse it, but must not read it as something else
+            if kind == "raise":
+                return [("more-than-two-operands-refused-or-read-left-associatively", z3.BoolVal(True))]
+            if not is_node(r):
+                return [("returns-node", z3.BoolVal(False))]
+            self.world.touch(ex, r)
+            acc = S.vi if sh == "ternary-int" else S.vr
+            return [("more-than-two-operands-refused-or-read-left-associatively", acc(S.val(r)) == acc(va) - acc(vb) - acc(S.val(self.c)))]
         if kind == "raise":
             return [("no-exception", z3.BoolVal(False))]
         if not is_node(r):
@@ -608,7 +624,7 @@ _base_variants8 = variants
 def variants(world, tier="quick", only=None):
     out = _base_variants8(world, tier, only)
     extra = []
-    for sh in ("neg-int-literal", "neg-real-literal", "neg-int-term", "neg-real-term", "binary-int", "binary-real"):
+    for sh in ("neg-int-literal", "neg-real-literal", "neg-int-term", "neg-real-term", "binary-int", "binary-real", "ternary-int", "ternary-real"):
         extra.append(HelperVariant(world, "_minus_or_uminus", sh))
     for sh in ("bool", "same-sort"):
         extra.append(HelperVariant(world, "_equals_or_iff", sh))
